@@ -35,7 +35,7 @@ def run(rep, tier, seed):
         else:
             stats["errors"] += 1
     ev = BC.byte_jobs("c13", items, extra=extra)
-    n_inputs = n_ok = n_trees_checked = n_skipped = n_empty_nodes = 0
+    n_inputs = n_ok = n_trees_checked = n_skipped = n_empty_nodes = n_mtok = n_mtbad = 0
     samples = []
     for tag, r, texts in items:
         e = ev.get(tag)
@@ -72,6 +72,8 @@ def run(rep, tier, seed):
                               found_input=False)
                 break
         n_trees_checked += len(e["extra"])
+        n_mtok += sum(1 for b in e.get("mtok", {}).values() if b)
+        n_mtbad += sum(1 for b in e.get("mtok", {}).values() if not b)
         if len(samples) < 4 and e["extra"]:
             i = sorted(e["extra"])[0]
             samples.append(dict(shape=r.case.meta["shape"], grammar=r.case.grammar, input=texts[i],
@@ -89,7 +91,7 @@ def run(rep, tier, seed):
              "Layout rules (whitespace, line comments, nested comments); inputs: rendered sentences/non-sentences with "
              "random whitespace (space, tab, CR/LF, NBSP, U+3000), garbage byte strings; non-trivial = inputs accepted "
              "by the real parser (their trees are span-checked)",
-        trees_span_checked=n_trees_checked, skipped_non_prefix_match=n_skipped, stats=stats, samples=samples)
+        trees_span_checked=n_trees_checked, inputs_meeting_mt_ok_b=n_mtok, inputs_not_meeting_mt_ok_b=n_mtbad, skipped_non_prefix_match=n_skipped, stats=stats, samples=samples)
     rep.assumptions = ["recognizers return a prefix of their argument (measured per input; violated inputs skipped)",
                        "GLR half of C13 is covered by C03/C07's runs"]
 
